@@ -24,9 +24,9 @@ PROPS = {
                 relevant={"pub", "pull", "sread"}),
     "C09": dict(module="Deltio.Props.C09", push=True, conc=[("mix", 60, 3000)], trace_kinds={"publish", "pull"}, seq=[("general", 200, 8000, 40), ("data", 100, 4000, 50)], pure=[],
                 relevant={"pub", "pull", "sread"}),
-    "C10": dict(module="Deltio.Props.C10", trace_kinds={"attach", "remove", "delete", "delete.begin", "delete.end"}, seq=[("namespace", 300, 12000, 50)], pure=[],
+    "C10": dict(module="Deltio.Props.C10", conc=[("namerace", 600, 20000)], trace_kinds={"attach", "remove", "delete", "delete.begin", "delete.end"}, seq=[("namespace", 300, 12000, 50)], pure=[],
                 relevant={"ctopic", "gtopic", "dtopic", "csub", "gsub", "dsub", "pub", "pull", "ack", "mod", "lsubs", "ltopics", "ltsubs"}),
-    "C11": dict(module="Deltio.Props.C11", conc=[("delete", 60, 2000)], trace_kinds={"attach", "remove", "delete", "delete.begin", "delete.end"}, seq=[("namespace", 300, 12000, 50), ("general", 100, 4000, 40)], pure=[],
+    "C11": dict(module="Deltio.Props.C11", conc=[("namerace", 600, 20000), ("delete", 100, 3000)], trace_kinds={"attach", "remove", "delete", "delete.begin", "delete.end"}, seq=[("namespace", 300, 12000, 50), ("general", 100, 4000, 40)], pure=[],
                 relevant={"dsub", "dtopic", "ltsubs", "wtsubs", "gsub", "lsubs", "wsubs", "stats", "ctopic", "csub", "pub", "pull"}),
     "C13": dict(module="Deltio.Props.C13", trace_kinds={"attach", "remove"}, seq=[("namespace", 250, 10000, 50)], pure=["tokens"],
                 relevant={"ltopics", "lsubs", "ltsubs", "wtopics", "wsubs", "wtsubs"}),
@@ -34,15 +34,15 @@ PROPS = {
                 relevant={"pull", "sread", "sopen"}),
     "C17": dict(module="Deltio.Props.C17", trace_kinds=set(), seq=[("malformed", 300, 12000, 50)], pure=["names", "tokens", "ext", "ackids"],
                 relevant=ALL_SEQ_OPS),
-    "C06": dict(module="Deltio.Props.C06", seq=[], pure=[], conc=[("wake", 200, 8000), ("swallow", 150, 6000), ("mix", 100, 4000)],
+    "C06": dict(module="Deltio.Props.C06", seq=[], pure=[], conc=[("race", 1500, 40000), ("wake", 400, 10000), ("swallow", 300, 8000), ("mix", 100, 4000)],
                 relevant={"pull", "probe", "sread", "stats"}, trace_kinds={"pull", "post", "modify", "expire"}),
-    "C07": dict(module="Deltio.Props.C07", seq=[], pure=[], conc=[("burst", 80, 3000), ("delete", 60, 2000), ("cancel", 60, 2000)],
+    "C07": dict(module="Deltio.Props.C07", seq=[], pure=[], conc=[("burst", 150, 4000), ("delete", 150, 4000), ("cancel", 150, 4000), ("namerace", 200, 5000)],
                 relevant=ALL_SEQ_OPS, trace_kinds={"delete.begin", "delete.end", "remove", "publish"}),
-    "C12": dict(module="Deltio.Props.C12", seq=[], pure=[], conc=[("delete", 250, 10000)],
+    "C12": dict(module="Deltio.Props.C12", seq=[], pure=[], conc=[("delete", 600, 20000)],
                 relevant={"pull", "sread", "dsub", "ack", "mod", "gsub", "pub"}, trace_kinds={"delete.begin", "delete.end"}),
     "C14": dict(module="Deltio.Props.C14", seq=[("namespace", 80, 3000, 40)], pure=[], conc=[], push=True,
                 relevant={"registry", "csub", "dsub"}, trace_kinds=set()),
-    "C16": dict(module="Deltio.Props.C16", seq=[], pure=[], conc=[("cancel", 300, 12000)],
+    "C16": dict(module="Deltio.Props.C16", seq=[], pure=[], conc=[("cancel", 600, 20000)],
                 relevant=ALL_SEQ_OPS, trace_kinds={"attach", "remove", "pull"}),
     "C19": dict(module="Deltio.Props.C19", seq=[], pure=["flow", "flowq"], conc=[], relevant=set(), trace_kinds=set()),
     "C18": dict(module="Deltio.Props.C18", trace_kinds=set(), seq=[("namespace", 60, 2000, 30)], pure=["names"],
